@@ -3,3 +3,4 @@ import GohtVerif.Proofs.C06
 import GohtVerif.Proofs.C07
 import GohtVerif.Proofs.C10
 import GohtVerif.Proofs.C16
+import GohtVerif.Proofs.C19
